@@ -134,6 +134,9 @@ func (e *Engine) startPath() {
 	e.pathAsserts = nil
 	e.trace = nil
 	e.abs = newAbs()
+	if e.pipe.Poisoned {
+		e.restartPipe(e.pipe.Logic)
+	}
 	e.pipe.PopAll()
 	e.pipe.Push()
 	if e.pipe.Queries() > 4000 {
